@@ -120,6 +120,10 @@ func (c *ColLowCardinalityRaw) DecodeColumn(r *Reader, rows int) error {
 	if err := checkRows(int(keyRows)); err != nil {
 		return errors.Wrap(err, "index size")
 	}
+	if int(keyRows) != rows {
+		// Every row has exactly one key.
+		return errors.Errorf("got %d keys for %d rows", keyRows, rows)
+	}
 	if err := c.Keys().DecodeColumn(r, int(keyRows)); err != nil {
 		return errors.Wrap(err, "keys column")
 	}
